@@ -134,10 +134,24 @@ def run(ctx, F):
     for n in A.walk(be["body"]):
         if n.get("e") == "if":
             c = A.strip(n["cond"])
-            if c.get("e") == "bin" and c["op"] == "==" and A.show(c["l"]).replace(" ", "") == "self.op" and A.strip(c["r"]).get("e") == "path":
+            if c.get("e") == "bin" and c["op"] == "==" and A.strip(c["r"]).get("e") == "path" and A.show(c["l"]).replace(" ", "") == "self.op":
                 opn = A.strip(c["r"])["p"].rsplit("::", 1)[-1]
                 if opn in ("And", "Or"):
                     found[opn] = n
+            elif c.get("e") == "bin" and c["op"] == "==" and A.strip(c["l"]).get("e") == "path" and A.show(c["r"]).replace(" ", "") == "self.op":
+                opn = A.strip(c["l"])["p"].rsplit("::", 1)[-1]
+                if opn in ("And", "Or"):
+                    found[opn] = n
+        # the same decision written as `match self.op { Operator::And => .., Operator::Or => .., .. }`
+        if n.get("e") == "match" and A.show(n["on"]).replace(" ", "").lstrip("&*") == "self.op":
+            for arm in n["arms"]:
+                if arm["pat"].get("p") == "path" and arm.get("guard") is None:
+                    opn = arm["pat"]["v"].rsplit("::", 1)[-1]
+                    if opn in ("And", "Or"):
+                        body = A.strip(arm["body"])
+                        if body.get("e") != "block":
+                            body = {"e": "block", "stmts": [{"s": "expr", "x": body, "semi": False}]}
+                        found[opn] = {"then": body}
     for opn in ("And", "Or"):
         if opn not in found:
             ctx.anchor_lost(f"BinOp::eval {opn} branch", f"no `if self.op == Operator::{opn}` in sass BinOp::eval")
